@@ -37,7 +37,7 @@ fn raw_list(r: &mut Rng) -> Req {
     Req::RawList { n, fail_at, shape: r.below(7) as u64 }
 }
 
-pub const NUM_DIRECTED: u64 = 32;
+pub const NUM_DIRECTED: u64 = 34;
 
 /// Directed scenarios; `variant` varies seeds / small timing offsets.
 pub fn directed(idx: u64, variant: u64, d: Duration) -> Scenario {
@@ -263,6 +263,27 @@ pub fn directed(idx: u64, variant: u64, d: Duration) -> Scenario {
             s.callers = vec![(ms(300), vec![Step::Do(Req::Raw { shape: 1 })]), (ms(301 + variant % 40), vec![Step::Do(Req::Raw { shape: 5 }), Step::Think(d / 2), Step::Do(Req::Raw { shape: 0 })])];
             s.notifications = vec![(ms(310), vec!["mixer".into()])];
         }
+        // the application keeps its events receiver but does not poll it before the end: 150 (every third variant:
+        // 600) single changes pile up while callers keep issuing requests; nothing may be lost, the client must
+        // keep re-idling and answering
+        32 => {
+            s.events_lazy = true;
+            let n = if variant % 3 == 2 { 600 } else { 150 };
+            const NAMES: [&str; 6] = ["player", "mixer", "options", "playlist", "database", "frobnicator"];
+            s.notifications = (0..n).map(|k| (ms(30 + 2 * k), vec![NAMES[(k % 6) as usize].to_string()])).collect();
+            s.callers = vec![
+                (ms(20), vec![Step::Do(Req::Raw { shape: 1 }), Step::Think(d * 2), Step::Do(Req::Raw { shape: 0 }), Step::Think(ms(2 * n)), Step::Do(Req::Raw { shape: 2 })]),
+                (ms(100 + variant % 50), vec![Step::Do(Req::RawList { n: 3, fail_at: None, shape: 1 }), Step::Think(d + ms(variant % 7)), Step::Do(Req::Raw { shape: 5 })]),
+            ];
+        }
+        // the same with replies carrying 5 changes each and a chopped transport
+        33 => {
+            s.events_lazy = true;
+            s.world.idle_seg = vec![SegPolicy::PerLine];
+            s.world.idle_chunk_delay = vec![ms(variant % 2)];
+            s.notifications = (0..40).map(|k| (ms(30 + 9 * k), vec!["player".to_string(), "mixer".into(), "sticker".into(), "output".into(), format!("unknown{}", k)])).collect();
+            s.callers = vec![(ms(50 + variant % 90), vec![Step::Do(Req::Raw { shape: 1 }), Step::Think(d / 2), Step::Do(Req::Raw { shape: 3 }), Step::Think(d * 3), Step::Do(Req::Raw { shape: 0 })])];
+        }
         // cancelled call whose request is still executed by the server, next caller right behind
         _ => {
             s.world.c2s_latency = vec![ms(2)];
@@ -382,6 +403,10 @@ pub fn random(seed: u64, d: Duration) -> Scenario {
     }
     // the application may drop the events receiver
     s.keep_events = !r.chance(1, 10);
+    // ... or keep it without polling it before the end
+    s.events_lazy = s.keep_events && r.chance(1, 12);
+    // a transport whose shutdown never completes
+    s.world.shutdown_stalls = r.chance(1, 8);
     // notifications over the span of the session
     let n = match r.below(4) {
         0 => 0,
